@@ -232,4 +232,94 @@ theorem mrm_mergeHeap_post {α : Type} (s : MHSt r) (d : Nat) (mg : MTree r d) (
 
 end heapPost
 
+/-! ### the two steps at the level of the model's calls -/
+
+section steps
+variable {r : Nat}
+
+theorem mrm_hid (d : Nat) (t : MTree r d) : (MTree.hdr d t).id ∈ md_ids d t := by
+  rw [mrm_md_ids_eq]; exact List.mem_cons_self
+
+theorem mrm_kid_sub (d : Nat) (t : MTree r d) (id : SlabID) (h : id ∈ mrm_kidIds d t) : id ∈ md_ids d t := by
+  rw [mrm_md_ids_eq]; exact List.mem_cons_of_mem _ h
+
+/-- what a rebalance / merge step of the operands `l` (child `li`), `rr` (child `ri`) of `m` needs of the heap before:
+    the slabs below both operands and every OTHER child are held, the identifiers involved are pairwise distinct -/
+structure mrm_PairOK (s : MHSt r) (d : Nat) (m : MMetaSlab (MTree r d)) (l rr : MTree r d) (li ri : Nat) : Prop where
+  hlr : (MTree.hdr d l).id ≠ (MTree.hdr d rr).id
+  hml : m.hdr.id ≠ (MTree.hdr d l).id
+  hmr : m.hdr.id ≠ (MTree.hdr d rr).id
+  hL : mrm_KidsHeld s.heap d l
+  hR : mrm_KidsHeld s.heap d rr
+  hLi : ∀ id, id ∈ mrm_kidIds d l ∨ id ∈ mrm_kidIds d rr →
+    id ≠ (MTree.hdr d l).id ∧ id ≠ (MTree.hdr d rr).id ∧ id ≠ m.hdr.id
+  hO : ∀ j c, j ≠ li → j ≠ ri → m.children[j]? = some c → MHolds s.heap d c none ∧
+    ∀ id ∈ md_ids d c, id ≠ (MTree.hdr d l).id ∧ id ≠ (MTree.hdr d rr).id ∧ id ≠ m.hdr.id
+
+theorem mrm_rebalanceChildren_ok (T : Nat) (d : Nat) (m : MMetaSlab (MTree r d)) (l rr : MTree r d) (li ri : Nat)
+    (b : Bool) (c : Ctx) (m' : MMetaSlab (MTree r d)) (c' : Ctx)
+    (h : MMetaSlab.rebalanceChildren T m l rr li ri b c = .ok (m', c')) :
+    m'.children = (m.children.set li (msl_rebalanced T d l rr b).1).set ri (msl_rebalanced T d l rr b).2 ∧
+    m'.hdr.id = m.hdr.id := by
+  simp only [msl_rebalanced]
+  cases b with
+  | true =>
+    simp only [MMetaSlab.rebalanceChildren, ↓reduceIte] at h ⊢
+    cases hres : MTree.borrowFromRight T d l rr with
+    | error e => rw [hres] at h; cases h
+    | ok p => rw [hres] at h; cases h; exact ⟨rfl, rfl⟩
+  | false =>
+    simp only [MMetaSlab.rebalanceChildren, Bool.false_eq_true, ↓reduceIte] at h ⊢
+    cases hres : MTree.lendToRight T d l rr with
+    | error e => rw [hres] at h; cases h
+    | ok p => rw [hres] at h; cases h; exact ⟨rfl, rfl⟩
+
+/-- the heap after a successful `rebalanceChildren` step: the new parent held under the parent identifier, every child
+    of the new parent held, everything but the three written identifiers untouched -/
+theorem mrm_rebHeapOf_post (T : Nat) (d : Nat) (m : MMetaSlab (MTree r d)) (x : Option DX) (l rr : MTree r d)
+    (li ri : Nat) (b : Bool) (s : MHSt r) (m' : MMetaSlab (MTree r d)) (c' : Ctx)
+    (h : MMetaSlab.rebalanceChildren T m l rr li ri b s.ctx = .ok (m', c'))
+    (hp : mrm_PairOK s d m l rr li ri) :
+    (mrm_rebHeapOf T d m x l rr li ri b s).heap m.hdr.id = some (.metaSlab (md_meta m' x)) ∧
+    (∀ c ∈ m'.children, MHolds (mrm_rebHeapOf T d m x l rr li ri b s).heap d c none) ∧
+    (∀ id, id ≠ (MTree.hdr d l).id → id ≠ (MTree.hdr d rr).id → id ≠ m.hdr.id →
+      (mrm_rebHeapOf T d m x l rr li ri b s).heap id = s.heap id) := by
+  obtain ⟨hch, hmid⟩ := mrm_rebalanceChildren_ok T d m l rr li ri b s.ctx m' c' h
+  obtain ⟨e1, e2⟩ := mrm_rebalanced_id T d l rr b
+  obtain ⟨k1, k2⟩ := mrm_KidsHeld_rebalanced T s.heap d l rr b hp.hL hp.hR
+  have hk := mrm_kidIds_rebalanced T d l rr b
+  simp only [mrm_rebHeapOf, h]
+  have post := mrm_rebHeap_post s d (msl_rebalanced T d l rr b).1 (msl_rebalanced T d l rr b).2 m' x m.children li ri
+    (by rw [e1, e2]; exact hp.hlr) (by rw [e1, hmid]; exact hp.hml) (by rw [e2, hmid]; exact hp.hmr) k1 k2
+    (fun id hid => by rw [e1, e2, hmid]; exact hp.hLi id (hk id (Or.inl hid)))
+    (fun id hid => by rw [e1, e2, hmid]; exact hp.hLi id (hk id (Or.inr hid)))
+    (fun j c h1 h2 h3 => by rw [e1, e2, hmid]; exact hp.hO j c h1 h2 h3)
+  rw [e1, e2, hmid, ← hch] at post
+  exact post
+
+/-- the heap after the `mergeChildren` step: likewise, and the right operand's identifier is GONE -/
+theorem mrm_mergeHeapOf_post (d : Nat) (m : MMetaSlab (MTree r d)) (x : Option DX) (l rr : MTree r d)
+    (li ri : Nat) (s : MHSt r) (hp : mrm_PairOK s d m l rr li ri) :
+    (mrm_mergeHeapOf d m x l rr li ri s).heap m.hdr.id =
+      some (.metaSlab (md_meta (MMetaSlab.mergeChildren m l rr li ri s.ctx).1 x)) ∧
+    (∀ c ∈ (MMetaSlab.mergeChildren m l rr li ri s.ctx).1.children,
+      MHolds (mrm_mergeHeapOf d m x l rr li ri s).heap d c none) ∧
+    (mrm_mergeHeapOf d m x l rr li ri s).heap (MTree.hdr d rr).id = none ∧
+    (∀ id, id ≠ (MTree.hdr d l).id → id ≠ (MTree.hdr d rr).id → id ≠ m.hdr.id →
+      (mrm_mergeHeapOf d m x l rr li ri s).heap id = s.heap id) := by
+  have e1 := mrm_merge_id d l rr
+  have hmid : (MMetaSlab.mergeChildren m l rr li ri s.ctx).1.hdr.id = m.hdr.id := rfl
+  have hch : (MMetaSlab.mergeChildren m l rr li ri s.ctx).1.children =
+      (m.children.set li (MTree.merge d l rr)).eraseIdx ri := rfl
+  have post := mrm_mergeHeap_post s d (MTree.merge d l rr) (MMetaSlab.mergeChildren m l rr li ri s.ctx).1 x
+    (MTree.hdr d rr).id m.children li ri
+    (by rw [e1]; exact hp.hlr) (by rw [e1, hmid]; exact hp.hml) (by rw [hmid]; exact hp.hmr)
+    (mrm_KidsHeld_merge s.heap d l rr hp.hL hp.hR)
+    (fun id hid => by rw [e1, hmid]; exact hp.hLi id (mrm_kidIds_merge d l rr id hid))
+    (fun j c h1 h2 h3 => by rw [e1, hmid]; exact hp.hO j c h1 h2 h3)
+  rw [e1, hmid, ← hch] at post
+  exact post
+
+end steps
+
 end Atree.TransEq
